@@ -2,7 +2,8 @@
    Model: Model/Atoms.v.  WF = every per-atom array has one entry per atom, every term row has its type and extra-field row,
    every term refers only to existing atoms. *)
 From Coq Require Import List Arith Bool ZArith.
-From Mofun Require Import Lib.NP Model.Atoms Proofs.DelProofs Proofs.ExtProofs Proofs.ReplProofs Proofs.WFProofs.
+From Mofun Require Import Lib.NP Model.Atoms Proofs.DelProofs Proofs.ExtProofs Proofs.ReplProofs Proofs.WFProofs Proofs.TypeProofs Proofs.ReplTypeProofs.
+From Mofun Require Import Model.Replace.
 Import ListNotations.
 
 Theorem C09_wf_delete : forall a ds, WF a -> NoDup ds -> WF (delitem a ds).
@@ -18,6 +19,39 @@ Print Assumptions C09_wf_extend.
 Theorem C09_wf_history : forall hs a, WF a -> hpres a hs -> WF (fold_left hstep hs a).
 Proof. exact WF_history. Qed.
 Print Assumptions C09_wf_history.
+
+(* "every type id in use has its type-level data": Typed = element / mass / label tables of one length, pair table absent or of that
+   length, every atom type id below that length, and for every term kind either no coefficient table at all or every term type id
+   below its length.  Preserved by every operation, hence over any history of delete, pop, extend (default offsets between
+   structures that agree on being parameterised, or explicit offsets under which other's ids resolve in self's tables),
+   replicate, subset and copy. *)
+Theorem C09_types_delete : forall a ds, Typed a -> Typed (delitem a ds).
+Proof. exact Typed_delitem. Qed.
+Print Assumptions C09_types_delete.
+Theorem C09_types_extend : forall a o offs m, Typed a -> Typed o -> atoms_sized o -> map_dom o m ->
+  match offs with Some f => resolves_in a o f | None => compat a o end -> Typed (extend a o offs m).
+Proof. exact Typed_extend. Qed.
+Print Assumptions C09_types_extend.
+Theorem C09_replicate : forall a r R, WF a -> Typed a -> replicate a r = Some R -> WF R /\ Typed R.
+Proof. exact replicate_WF_Typed. Qed.
+Print Assumptions C09_replicate.
+Theorem C09_subset : forall a idxs, Typed a -> atoms_sized a -> Forall (fun i => i < natoms a) idxs -> WF (getitem a idxs) /\ Typed (getitem a idxs).
+Proof. intros a idxs T S H. exact (conj (WF_getitem a idxs) (Typed_getitem a idxs T S H)). Qed.
+Print Assumptions C09_subset.
+Theorem C09_full_history : forall hs a, WF a -> Typed a -> fpres a hs -> WF (fold_left fstep hs a) /\ Typed (fold_left fstep hs a).
+Proof. exact full_history. Qed.
+Print Assumptions C09_full_history.
+(* replacing: the result of replace_pattern_in_structure's model (extend_types once, one extend per selected match, one deletion) on
+   consistent, typed, mutually compatible structure and replacement pattern, for ANY selection of well-formed matches, is consistent
+   and typed *)
+Theorem C09_replace : forall S search repl ra ig sel S' k, WF S -> Typed S -> WF repl -> Typed repl -> compat S repl ->
+  Forall (match_ok S search repl) sel -> replace_from S search repl ra ig sel = Ok S' k -> WF S' /\ Typed S'.
+Proof. exact replace_WF_Typed. Qed.
+Print Assumptions C09_replace.
+(* non-vacuity: a history through all six operations whose every precondition holds, and what it ends in *)
+Example C09_full_history_nonvacuous : (WF ex_a /\ Typed ex_a) /\ fpres ex_a ex_history /\
+  (let r := fold_left fstep ex_history ex_a in (natoms r, a_typ r, t_el r) = (1, [2], [1%Z; 2%Z; 9%Z])).
+Proof. exact (conj ex_start (conj ex_pre ex_result)). Qed.
 
 (* meaning of type ids.  Deletion never touches a type table and keeps the type id of every surviving atom and term
    (C10_atoms / C10_terms).  extend_types appends other's tables after self's, so
